@@ -140,9 +140,11 @@ fn polynomials_scaled(rng: &mut Rng) {
             if std::env::var("VH_C09_TRACE").is_ok() {
                 eprintln!("k={k} s={s:e} cond={cond:e} noise={noise:e} excess={excess:e}");
             }
-            // measured on the unchanged tree: <= 5e-15 below condition 1e3, <= 2e-9 up to 1e5 (the code solves
+            // measured on the unchanged tree: <= 5e-15 below condition 1e3, <= 2e-9 up to 1e4 (the code solves
             // the normal equations by inversion); a fit that loses a coefficient is at 1e-3 .. 1
-            let allowed = if cond <= 1e3 { 1e-10 } else if cond <= 1e5 { 1e-6 } else { f64::INFINITY };
+            // beyond condition 1e4 the inversion of the normal equations is itself inaccurate (5e-4 seen at 2.6e4):
+            // ill-conditioned designs are not judged
+            let allowed = if cond <= 1e3 { 1e-10 } else if cond <= 1e4 { 1e-5 } else { f64::INFINITY };
             v.require(excess <= allowed, "poly.no_other_coefficients_have_smaller_sum_of_squares",
                 || format!("K={k} scale {s:e} (condition of the normalised design matrix {cond:e}): sum of squares {ss_fit:e}, the least-squares solution has {ss_ref:e} (sum of w*y^2 = {total:e}); fit {c:?}"));
         }
